@@ -37,6 +37,13 @@ CHECKS = {
          "Trusted: Lean kernel + standard axioms; filesystem semantics assumed (failed call has no effect, 'wb' truncates at open); path text / "
          "PART_ID regex outside the model (tied by correspondence). Not modelled: partial writes inside one write call, durability.",
          "Lean 4 proof (ordering/freshness invariant) + exhaustive fault injection correspondence", "§6 C19"),
+ "C07": ("Lean 4 theorems: single-file append leaves every byte before the old footer unchanged and yields old row groups ++ new row "
+         "groups ++ footer ++ trailer; multi-file append gives new parts numbers strictly above all referenced ones, so no operation "
+         "targets an existing data file; categorical read-back equals each row's own label when all dictionaries agree, and a proved "
+         "counter-example shows it does not otherwise (known finding). Tied to the code by trace and byte correspondence over append "
+         "histories; oracle: existing bytes/files unchanged and read = original ++ batches in order.",
+         "Trusted: Lean kernel + standard axioms; POSIX write semantics; path text / regex outside the model. Value decode per row group is C01/C03.",
+         "Lean 4 proof + trace/byte correspondence over histories", "§6 C07"),
 }
 
 def main():
